@@ -431,9 +431,14 @@ def run(tier):
         # ... and for ANY number of threads and rows: the TLA+ proof system checks the inductive-invariant proof of
         # Spec => [](AtomicTable /\ Linearizable) for the build-then-publish model (Proof_LazyPublish.tla)
         nobl = common.run_tlapm(specdir, 'Proof_LazyPublish')
-        rep.setcov('machine_checked_proof', dict(tool='tlapm', module='Proof_LazyPublish', theorem='Safe', obligations_proved=nobl,
-                                                 meaning='LazyPublish with PublishFirst = FALSE: AtomicTable and Linearizable hold in every reachable '
-                                                         'state for any number of threads and any table size (inductive invariant IndInv)'))
+        nobl2 = common.run_tlapm(specdir, 'Proof_SharedScratch')
+        rep.setcov('machine_checked_proofs', [
+            dict(tool='tlapm', module='Proof_LazyPublish', theorem='Safe', obligations_proved=nobl,
+                 meaning='LazyPublish with PublishFirst = FALSE: AtomicTable and Linearizable hold in every reachable state for any number '
+                         'of threads and any table size (inductive invariant IndInv)'),
+            dict(tool='tlapm', module='Proof_SharedScratch', theorem='Safe', obligations_proved=nobl2,
+                 meaning='SharedScratch with Locked = TRUE: Linearizable (every call returns the factor of its own row and age) in every '
+                         'reachable state for any number of threads, rows and ages (mutual exclusion + scratch ownership invariant)')])
         phases['models'] = round(_t.time() - t0, 1)
         # (b) real code under the scheduler
         S = scenarios(quick)
